@@ -40,6 +40,19 @@ func c15GenRule(r *rng) string {
 			}
 			ds = append(ds, d)
 		}
+		if r.chance(1, 8) {
+			// N2: MANY domains (4, 5, 9, 17, 33, 41, 65 … up to 80): the aimed names above plus filler names, at random positions
+			total := n2Count(r, 1, nil, 4, 80)
+			off := r.n(500)
+			for k := 0; len(ds) < total; k++ {
+				f := fmt.Sprintf("shop%03d.example.net", off+k)
+				if r.chance(1, 10) {
+					f = "~" + f
+				}
+				pos := r.n(len(ds) + 1)
+				ds = append(ds[:pos:pos], append([]string{f}, ds[pos:]...)...)
+			}
+		}
 
 		return strings.Join(ds, ",")
 	}
@@ -183,6 +196,12 @@ func c15Gen(r *rng, n int, w *bufio.Writer) {
 		if r.chance(1, 5) {
 			nLines = 1 + r.n(40)
 		}
+		// N2: once in 20 scenarios MANY rules in one engine (more than 40 / 64 / 100 / 255 …), most of them generic rules
+		// with selectors of their own (the answer is a set of selectors), with exceptions and exclusions for some of them
+		many := r.chance(1, 20)
+		if many {
+			nLines = n2Count(r, 1, nil, 41, 280)
+		}
 		bodies := make([][]string, nLists)
 		var all []string
 		for j := 0; j < nLines; j++ {
@@ -190,12 +209,45 @@ func c15Gen(r *rng, n int, w *bufio.Writer) {
 			if r.chance(1, 40) {
 				t = c15LongRule(r)
 			}
+			if many && r.chance(5, 6) {
+				sel := fmt.Sprintf(".g%d", r.n(nLines))
+				switch r.n(12) {
+				case 0:
+					t = pick(r, c15Domains) + "#@#" + sel
+				case 1:
+					t = "~" + pick(r, c15Domains) + "##" + sel
+				case 2:
+					t = pick(r, c15Domains) + "##" + sel
+				default:
+					t = "##" + sel
+				}
+			}
 			if len(all) > 0 && r.chance(1, 8) {
 				t = pick(r, all)
 			}
 			all = append(all, t)
 			l := r.n(nLists)
 			bodies[l] = append(bodies[l], t)
+		}
+		if r.chance(1, 3) {
+			// several generic rules, some of them excluded (`~d##sel`) or excepted (`d#@#sel`) for one domain: the GENERIC
+			// part of the answer then differs from hostname to hostname
+			sels := subset(r, c15Selectors, 6)
+			for k, sel := range sels {
+				t := "##" + sel
+				switch r.n(4) {
+				case 0:
+					t = "~" + pick(r, c15Domains) + "##" + sel
+				case 1:
+					e := pick(r, c15Domains) + "#@#" + sel
+					all = append(all, e)
+					l := r.n(nLists)
+					bodies[l] = append(bodies[l], e)
+				}
+				all = append(all, t)
+				l := (k + r.n(2)) % nLists
+				bodies[l] = append(bodies[l], t)
+			}
 		}
 		var lists []filterlist.RuleList
 		var note []string
@@ -221,7 +273,33 @@ func c15Gen(r *rng, n int, w *bufio.Writer) {
 			}
 		}
 		rulesW := wlist(items...)
-		for j := 0; j < 2 && i < n; j++ {
+		// The results of ALL queries of the scenario are kept and serialised a second time after the last call: a
+		// result handed out must not change when the engine is asked about another hostname (collect, then compare).
+		type held struct {
+			prefix, note, first string
+			res                 urlfilter.CosmeticResult
+		}
+		var helds []held
+		ser := func(res urlfilter.CosmeticResult) string {
+			extra := len(res.CSS.Generic) + len(res.CSS.Specific) + len(res.CSS.GenericExtCSS) + len(res.CSS.SpecificExtCSS) +
+				len(res.JS.Generic) + len(res.JS.Specific)
+			if extra != 0 {
+				return "unexpected-css-or-js-result"
+			}
+
+			a := c15SelSet(res.ElementHiding.Generic, res.ElementHiding.GenericExtCSS) + "|" +
+				c15SelSet(res.ElementHiding.Specific, res.ElementHiding.SpecificExtCSS)
+			if a == "()|()" {
+				a = "()" // the all-empty answer (counted as trivial by vcheck)
+			}
+
+			return a
+		}
+		nHosts := 2
+		if r.chance(1, 3) {
+			nHosts = 3 + r.n(2)
+		}
+		for j := 0; j < nHosts && i < n; j++ {
 			host := c15Host(r)
 			if r.chance(2, 3) { // a domain some rule of the scenario names, or a subdomain / concrete TLD of it
 				var used []string
@@ -238,9 +316,16 @@ func c15Gen(r *rng, n int, w *bufio.Writer) {
 					host = pick(r, []string{"", "", "www.", "a.b.", "my"}) + host
 				}
 			}
-			for flags := 0; flags < 8 && i < n; flags, i = flags+1, i+1 {
+			// the 8 flag combinations, in ascending or (so that the full result is not the last one asked) another order
+			order := []int{0, 1, 2, 3, 4, 5, 6, 7}
+			if r.chance(1, 3) {
+				shuffle(r, order)
+			}
+			for oi := 0; oi < 8 && i < n; oi, i = oi+1, i+1 {
+				flags := order[oi]
 				css, js, gen := flags&1 != 0, flags&2 != 0, flags&4 != 0
 				viaEngine := r.chance(1, 2)
+				var kept urlfilter.CosmeticResult
 				ans := guardStr(func() string {
 					res := engine.Match(host, css, js, gen)
 					if viaEngine {
@@ -257,23 +342,25 @@ func c15Gen(r *rng, n int, w *bufio.Writer) {
 						}
 						res = full.GetCosmeticResult(host, opt)
 					}
-					extra := len(res.CSS.Generic) + len(res.CSS.Specific) + len(res.CSS.GenericExtCSS) + len(res.CSS.SpecificExtCSS) +
-						len(res.JS.Generic) + len(res.JS.Specific)
-					if extra != 0 {
-						return "unexpected-css-or-js-result"
-					}
+					kept = res
 
-					a := c15SelSet(res.ElementHiding.Generic, res.ElementHiding.GenericExtCSS) + "|" +
-						c15SelSet(res.ElementHiding.Specific, res.ElementHiding.SpecificExtCSS)
-					if a == "()|()" {
-						a = "()" // the all-empty answer (counted as trivial by vcheck)
-					}
-
-					return a
+					return ser(res)
 				})
-				fmt.Fprintf(w, "c15.cosm %s %s %s %s %s %s = %s ## host=%q css=%v js=%v generic=%v lists: %s\n",
-					rulesW, wb(host), wbool(css), wbool(js), wbool(gen), wpsl(host), ans, host, css, js, gen, map[bool]string{true: "via Engine.GetCosmeticResult; ", false: ""}[viaEngine]+c15ShortNote(strings.Join(note, " ‖ ")))
+				helds = append(helds, held{res: kept, first: ans,
+					prefix: fmt.Sprintf("c15.cosm %s %s %s %s %s %s", rulesW, wb(host), wbool(css), wbool(js), wbool(gen), wpsl(host)),
+					note: fmt.Sprintf("host=%q css=%v js=%v generic=%v lists: %s", host, css, js, gen, map[bool]string{true: "via Engine.GetCosmeticResult; ", false: ""}[viaEngine]+c15ShortNote(strings.Join(note, " ‖ ")))})
 			}
+		}
+		for k, h := range helds {
+			ans, nt := h.first, h.note
+			if ans != "PANIC" {
+				if now := guardStr(func() string { return ser(h.res) }); now != h.first {
+					ans = "HELD-RESULT-CHANGED:" + now
+					nt = fmt.Sprintf("THE RESULT CHANGED AFTER IT WAS RETURNED: right after the call (query %d of %d on this engine) it was %s, after the later calls of the scenario it is %s; %s",
+						k+1, len(helds), h.first, now, nt)
+				}
+			}
+			fmt.Fprintf(w, "%s = %s ## %s\n", h.prefix, ans, nt)
 		}
 	}
 }
